@@ -68,20 +68,8 @@ Proof. destruct a, b; simpl; intros; congruence. Qed.
 Lemma in_add_res : forall r x l, In r (add_res x l) -> r = x \/ In r l.
 Proof. intros r x l. unfold add_res. destruct (has_res x l); simpl; intros H; auto. destruct H; auto. Qed.
 
-Lemma filter_leak_only : forall fx l r, In r (filter (fun r => negb (gone_releases fx r)) l) -> r = RFileFd /\ In r l.
-Proof.
-  intros fx l r H. apply filter_In in H. destruct H as [H1 H2]. destruct r; simpl in H2; try discriminate. auto.
-Qed.
-
-Lemma filter_leak_fixed : forall l, filter (fun r => negb (gone_releases true r)) l = [].
-Proof. induction l as [|x t IH]; simpl; auto. destruct x; simpl; auto. Qed.
-
-Lemma filter_leak_nil : forall fx l, ~ In RFileFd l -> filter (fun r => negb (gone_releases fx r)) l = [].
-Proof.
-  intros fx l H. destruct (filter (fun r => negb (gone_releases fx r)) l) as [|x t] eqn:E; auto.
-  assert (Hx : In x (filter (fun r => negb (gone_releases fx r)) l)) by (rewrite E; simpl; auto).
-  apply filter_leak_only in Hx. destruct Hx; subst. contradiction.
-Qed.
+Lemma filter_leak_nil : forall l, filter (fun r => negb (gone_releases r)) l = [].
+Proof. induction l as [|x t IH]; simpl; auto. Qed.
 
 (* ------------------------------------------------------------------ invariants *)
 Definition life_ok (l : life) : Prop :=
@@ -92,10 +80,7 @@ Definition life_ok (l : life) : Prop :=
 Definition conn_ok (cfg : config) (c : conn) : Prop :=
   life_ok (c_life c) /\
   (l_freed (c_life c) = true -> p_res (c_proto c) = []) /\
-  (l_freed (c_life c) = false -> c_leak c = []) /\
-  (forall r, In r (c_leak c) -> r = RFileFd) /\
-  (g_ft cfg = false -> ~ In RFileFd (p_res (c_proto c)) /\ c_leak c = []) /\
-  (g_fix_ftfd cfg = true -> c_leak c = []).
+  c_leak c = [].
 
 Definition order_ok (s : screen) : Prop :=
   NoDup (s_order s) /\
@@ -103,20 +88,13 @@ Definition order_ok (s : screen) : Prop :=
 
 Definition inv (s : screen) : Prop := Forall (conn_ok (s_cfg s)) (s_conns s) /\ order_ok s.
 
-(* protocol updates that cannot introduce a file-transfer descriptor *)
-Definition nofile (f : proto -> proto) : Prop :=
-  forall p, In RFileFd (p_res (f p)) -> In RFileFd (p_res p).
-
 (* protocol updates that leave the two mutex flags alone *)
 Definition nolock (f : proto -> proto) : Prop :=
   forall p, p_outlock (f p) = p_outlock p /\ p_sendlock (f p) = p_sendlock p.
 
 (* ------------------------------------------------------------------ basic transitions *)
 Inductive bstep (k : nat) : screen -> screen -> Prop :=
-  | b_updp : forall f s, nofile f -> nolock f -> bstep k s (updp k f s)
-  | b_ftadd : forall f s, g_ft (s_cfg s) = true -> nolock f -> bstep k s (updp k f s)
-  | b_outlock : forall s, g_fix_wlock (s_cfg s) = false -> bstep k s (updp k (pset_outlock true) s)
-  | b_sendlock : forall s, g_fix_cut8 (s_cfg s) = false -> bstep k s (updp k (pset_sendlock true) s)
+  | b_updp : forall f s, nolock f -> bstep k s (updp k f s)
   | b_close : forall s, bstep k s (close_client k s)
   | b_gone : forall s, bstep k s (connection_gone k s)
   | b_ioc : forall n s, bstep k s (set_ioc n s)
@@ -124,7 +102,9 @@ Inductive bstep (k : nat) : screen -> screen -> Prop :=
   | b_unmod : forall s, bstep k s (set_unmod true s)
   | b_hung : forall s c, live s k = Some c -> p_outlock (c_proto c) || p_sendlock (c_proto c) = true ->
              bstep k s (set_hung true s)
-  | b_ptr : forall v s, bstep k s (set_ptr v s).
+  | b_ptr : forall v s, bstep k s (set_ptr v s)
+  | b_ref : forall v s, bstep k s (set_ref v s)
+  | b_scaled : forall v s, bstep k s (set_scaled v s).
 
 Inductive reachk (k : nat) : screen -> screen -> Prop :=
   | rk_refl : forall s, reachk k s s
@@ -158,9 +138,8 @@ Proof.
     destruct (l_open (c_life c)); auto. unfold get. simpl. apply nth_upd_other; auto.
   - (* gone *) unfold connection_gone. destruct (s_hung s); auto. destruct (live s k); auto.
     destruct (p_outlock (c_proto c) || p_sendlock (c_proto c)).
-    { destruct (g_fix_ftfd (s_cfg s)); auto. unfold get. simpl. apply nth_upd_other; auto. }
-    unfold get. simpl.
-    destruct (if negb (l_new (c_life c) =? 0)%nat then _ else _) eqn:E0; clear E0.
+    { unfold get. simpl. apply nth_upd_other; auto. }
+    unfold get, adj_ref. destruct (p_scaled (c_proto c)); simpl.
     all: destruct (s_ptr s) as [j0|]; simpl; try destruct (Nat.eqb j0 k); simpl; apply nth_upd_other; auto.
 Qed.
 
@@ -182,18 +161,18 @@ Proof.
   - unfold close_client. intros E. rewrite E. auto.
   - unfold close_client. destruct (s_hung s); auto. destruct (live s k); auto. destruct (l_open (c_life c)); auto.
   - unfold connection_gone. destruct (s_hung s); auto. destruct (live s k); auto.
-    destruct (p_outlock (c_proto c) || p_sendlock (c_proto c)); [destruct (g_fix_ftfd (s_cfg s)); auto|].
-    simpl. destruct (s_ptr s) as [j0|]; simpl; try destruct (Nat.eqb j0 k); auto.
+    destruct (p_outlock (c_proto c) || p_sendlock (c_proto c)); [auto|].
+    unfold adj_ref; destruct (p_scaled (c_proto c)); simpl; destruct (s_ptr s) as [j0|]; simpl; try destruct (Nat.eqb j0 k); auto.
   - unfold connection_gone. destruct (s_hung s); auto. destruct (live s k); auto.
-    destruct (p_outlock (c_proto c) || p_sendlock (c_proto c)); [destruct (g_fix_ftfd (s_cfg s)); auto|].
-    simpl. destruct (s_ptr s) as [j0|]; simpl; try destruct (Nat.eqb j0 k); auto.
+    destruct (p_outlock (c_proto c) || p_sendlock (c_proto c)); [auto|].
+    unfold adj_ref; destruct (p_scaled (c_proto c)); simpl; destruct (s_ptr s) as [j0|]; simpl; try destruct (Nat.eqb j0 k); auto.
   - unfold connection_gone. destruct (s_hung s); auto. destruct (live s k); auto.
-    destruct (p_outlock (c_proto c) || p_sendlock (c_proto c)); [destruct (g_fix_ftfd (s_cfg s)); simpl; auto; apply upd_length|].
-    simpl. destruct (s_ptr s) as [j0|]; simpl; try destruct (Nat.eqb j0 k); simpl; apply upd_length.
+    destruct (p_outlock (c_proto c) || p_sendlock (c_proto c)); [simpl; apply upd_length|].
+    unfold adj_ref; destruct (p_scaled (c_proto c)); simpl; destruct (s_ptr s) as [j0|]; simpl; try destruct (Nat.eqb j0 k); simpl; apply upd_length.
   - unfold connection_gone. intros E. rewrite E. auto.
   - unfold connection_gone. destruct (s_hung s); auto. destruct (live s k); auto.
-    destruct (p_outlock (c_proto c) || p_sendlock (c_proto c)); [destruct (g_fix_ftfd (s_cfg s)); auto|].
-    simpl. destruct (s_ptr s) as [j0|]; simpl; try destruct (Nat.eqb j0 k); auto.
+    destruct (p_outlock (c_proto c) || p_sendlock (c_proto c)); [auto|].
+    unfold adj_ref; destruct (p_scaled (c_proto c)); simpl; destruct (s_ptr s) as [j0|]; simpl; try destruct (Nat.eqb j0 k); auto.
 Qed.
 
 Lemma reachk_cfg : forall k s s', reachk k s s' -> s_cfg s' = s_cfg s /\ s_cleaned s' = s_cleaned s
@@ -242,80 +221,50 @@ Proof.
     + apply Nat.eqb_neq in E. lia.
 Qed.
 
-Lemma conn_ok_on_proto : forall cfg f c, conn_ok cfg c ->
-  (g_ft cfg = false -> In RFileFd (p_res (f (c_proto c))) -> In RFileFd (p_res (c_proto c))) ->
-  conn_ok cfg (on_proto f c).
+Lemma conn_ok_on_proto : forall cfg f c, conn_ok cfg c -> conn_ok cfg (on_proto f c).
 Proof.
-  intros cfg f c OK Hn. unfold on_proto. destruct (l_freed (c_life c)) eqn:Hf; auto.
-  destruct OK as (L & R1 & R2 & R3 & R4 & R5).
-  unfold conn_ok; simpl. split; [exact L|]. split; [congruence|]. split; [exact R2|]. split; [exact R3|].
-  split; [|exact R5].
-  intros Hft. destruct (R4 Hft) as [N1 N2]. split; auto.
+  intros cfg f c OK. unfold on_proto. destruct (l_freed (c_life c)) eqn:Hf; auto.
+  destruct OK as (L & R1 & R2).
+  unfold conn_ok; simpl. split; [exact L|]. split; [congruence|exact R2].
 Qed.
 
-Lemma inv_updp : forall k f s, nofile f -> inv s -> inv (updp k f s).
+Lemma inv_updp : forall k f s, inv s -> inv (updp k f s).
 Proof.
-  intros k f s n I.
+  intros k f s I.
   eapply inv_upd with (k := k) (g := on_proto f); eauto.
   intros c Hc OK. rewrite on_proto_life. split; auto.
   apply conn_ok_on_proto; auto.
 Qed.
 
-Lemma in_drop_all_ft : forall r l, In r (drop_all_ft l) -> In r l.
+Lemma inv_screen_only : forall s s', inv s -> s_cfg s' = s_cfg s -> s_conns s' = s_conns s -> s_order s' = s_order s -> inv s'.
 Proof.
-  intros r. induction l as [|x t IH]; simpl; auto.
-  destruct x; simpl; intros H; try (destruct H as [H|H]; [left; exact H | right; apply IH; exact H]).
-  right. apply IH. exact H.
+  intros s s' [HF [HN HO]] E1 E2 E3. split; [rewrite E1, E2; auto|].
+  split; [rewrite E3; auto|]. intros j. rewrite E3, HO. unfold get. rewrite E2. tauto.
 Qed.
-
-Lemma nofile_drop_ft : nofile drop_ft.
-Proof. unfold nofile, drop_ft. intros p. simpl. apply in_drop_all_ft. Qed.
-
-Lemma nofile_outlock : forall v, nofile (pset_outlock v).
-Proof. intros v p H. exact H. Qed.
-Lemma nofile_sendlock : forall v, nofile (pset_sendlock v).
-Proof. intros v p H. exact H. Qed.
 
 Lemma bstep_inv : forall k s s', bstep k s s' -> inv s -> inv s'.
 Proof.
-  intros k s s' H I. destruct H; try exact I.
-  - (* updp, no new file descriptor *)
-    apply inv_updp; auto.
-  - (* updp under permitFileTransfer *)
-    eapply inv_upd with (k := k) (g := on_proto f); eauto.
-    intros c Hc OK. rewrite on_proto_life. split; auto.
-    apply conn_ok_on_proto; auto. congruence.
-  - apply inv_updp; auto. apply nofile_outlock.
-  - apply inv_updp; auto. apply nofile_sendlock.
+  intros k s s' H I. destruct H; try exact I; try (eapply inv_screen_only; eauto; fail).
+  - apply inv_updp; auto.
   - (* rfbCloseClient *)
     unfold close_client. destruct (s_hung s); auto. destruct (live s k) as [c|] eqn:E; auto.
     destruct (live_some _ _ _ E) as [Hg Hfr]. destruct (l_open (c_life c)) eqn:Ho; auto.
     eapply inv_upd with (k := k) (g := fun _ => _); simpl; eauto.
-    intros c0 Hc0 (L & R1 & R2 & R3 & R4 & R5). rewrite Hg in Hc0. inversion Hc0; subst c0. simpl. split; auto.
-    unfold conn_ok; simpl. split; [apply life_ok_close; auto|]. split; [congruence|].
-    split; [exact R2|]. split; [exact R3|]. split; [|exact R5].
-    intros Hft. destruct (R4 Hft) as [N1 N2]. split; auto.
-    intros Hin. apply in_remove_one in Hin. apply in_remove_one in Hin. auto.
+    intros c0 Hc0 (L & R1 & R2). rewrite Hg in Hc0. inversion Hc0; subst c0. simpl. split; auto.
+    unfold conn_ok; simpl. split; [apply life_ok_close; auto|]. split; [congruence|exact R2].
   - (* rfbClientConnectionGone *)
     unfold connection_gone. destruct (s_hung s); auto. destruct (live s k) as [c|] eqn:E; auto.
     destruct (live_some _ _ _ E) as [Hg Hfr].
     destruct (p_outlock (c_proto c) || p_sendlock (c_proto c)).
-    + destruct (g_fix_ftfd (s_cfg s)).
-      * exact (inv_updp k drop_ft s nofile_drop_ft I).
-      * exact I.
+    + exact (inv_updp k drop_ft s I).
     + destruct I as [HF [HN HO]].
       set (hooked := negb (l_new (c_life c) =? 0)%nat).
       set (c' := mkConn (c_fd c) (gone_life hooked (c_life c)) (pset_res [] (c_proto c))
-                        (filter (fun r => negb (gone_releases (g_fix_ftfd (s_cfg s)) r)) (p_res (c_proto c)))).
-      assert (Hconns : forall s2, s_conns s2 = s_conns s -> s_cfg s2 = s_cfg s ->
-                Forall (conn_ok (s_cfg s2)) (upd_nth k (fun _ => c') (s_conns s2))).
-      { intros s2 E1 E2. rewrite E1, E2. apply Forall_upd; auto. intros x Hx (L & R1 & R2 & R3 & R4 & R5).
+                        (filter (fun r => negb (gone_releases r)) (p_res (c_proto c)))).
+      assert (Hconns : Forall (conn_ok (s_cfg s)) (upd_nth k (fun _ => c') (s_conns s))).
+      { apply Forall_upd; auto. intros x Hx (L & R1 & R2).
         unfold get in Hg. rewrite Hg in Hx. inversion Hx; subst x.
-        unfold conn_ok, c'; simpl. split; [apply life_ok_gone; auto|]. split; [auto|].
-        split; [intros; discriminate|]. split; [intros r Hr; apply filter_leak_only in Hr; tauto|].
-        split.
-        - intros Hft. destruct (R4 Hft) as [N1 N2]. split; auto. apply filter_leak_nil; auto.
-        - intros Hfx. rewrite Hfx. apply filter_leak_fixed. }
+        unfold conn_ok, c'; simpl. split; [apply life_ok_gone; auto|]. split; [auto|]. apply filter_leak_nil. }
       assert (Hord : forall s2, s_conns s2 = upd_nth k (fun _ => c') (s_conns s) ->
                 s_order s2 = remove_id k (s_order s) -> order_ok s2).
       { intros s2 E1 E2. split.
@@ -326,9 +275,10 @@ Proof.
             * intros [_ Hn]. congruence.
             * intros [c0 [Hc0 Hf0]]. inversion Hc0; subst c0. simpl in Hf0. discriminate.
           + rewrite nth_upd_other; auto. tauto. }
+      unfold adj_ref. destruct (p_scaled (c_proto c)); simpl;
       destruct (s_ptr s) as [j0|] eqn:Ep; simpl; rewrite ?Ep; simpl;
         try destruct (Nat.eqb j0 k); simpl; split;
-        try (apply (Hconns s); auto); try (apply Hord; simpl; auto).
+        try (exact Hconns); try (apply Hord; simpl; auto).
 Qed.
 
 Lemma reachk_inv : forall k s s', reachk k s s' -> inv s -> inv s'.
@@ -338,12 +288,14 @@ Proof. intros k s s' H. induction H; auto. intros I. eapply bstep_inv; eauto. Qe
 Create HintDb rk.
 
 Lemma R_refl : forall k s, reachk k s s. Proof. apply rk_refl. Qed.
-Lemma R_updp : forall k f s0 x, nofile f -> nolock f -> reachk k s0 x -> reachk k s0 (updp k f x).
+Lemma R_updp : forall k f s0 x, nolock f -> reachk k s0 x -> reachk k s0 (updp k f x).
 Proof. intros. eapply rk_step; eauto. apply b_updp; auto. Qed.
-Lemma R_outlock : forall k s0 x, g_fix_wlock (s_cfg x) = false -> reachk k s0 x -> reachk k s0 (updp k (pset_outlock true) x).
-Proof. intros. eapply rk_step; eauto. apply b_outlock; auto. Qed.
-Lemma R_sendlock : forall k s0 x, g_fix_cut8 (s_cfg x) = false -> reachk k s0 x -> reachk k s0 (updp k (pset_sendlock true) x).
-Proof. intros. eapply rk_step; eauto. apply b_sendlock; auto. Qed.
+Lemma R_ref : forall k v s0 x, reachk k s0 x -> reachk k s0 (set_ref v x).
+Proof. intros. eapply rk_step; eauto. apply b_ref. Qed.
+Lemma R_scaled : forall k v s0 x, reachk k s0 x -> reachk k s0 (set_scaled v x).
+Proof. intros. eapply rk_step; eauto. apply b_scaled. Qed.
+Lemma R_adj_ref : forall k p d s0 x, reachk k s0 x -> reachk k s0 (adj_ref p d x).
+Proof. intros. unfold adj_ref. destruct (p_scaled p); [apply R_scaled | apply R_ref]; auto. Qed.
 Lemma orb_l : forall a b, a = true -> a || b = true. Proof. intros; subst; reflexivity. Qed.
 Lemma orb_r : forall a b, b = true -> a || b = true. Proof. intros; subst; apply orb_true_r. Qed.
 Lemma R_close : forall k s0 x, reachk k s0 x -> reachk k s0 (close_client k x).
@@ -361,17 +313,8 @@ Lemma R_hung : forall k s0 x c, live x k = Some c -> p_outlock (c_proto c) || p_
 Proof. intros. eapply rk_step; eauto. eapply b_hung; eauto. Qed.
 Lemma R_ptr : forall k v s0 x, reachk k s0 x -> reachk k s0 (set_ptr v x).
 Proof. intros. eapply rk_step; eauto. apply b_ptr. Qed.
-#[export] Hint Resolve R_refl R_updp R_outlock R_sendlock R_close R_gone R_ioc R_bad R_unmod R_ptr : rk.
+#[export] Hint Resolve R_refl R_updp R_ref R_scaled R_adj_ref R_close R_gone R_ioc R_bad R_unmod R_ptr : rk.
 
-Ltac solve_nofile :=
-  unfold nofile; intros ?p; simpl;
-  repeat match goal with |- context [if ?b then _ else _] => destruct b; simpl end;
-  auto;
-  repeat match goal with
-         | |- In _ (add_res _ _) -> _ => let H := fresh in intros H; apply in_add_res in H; destruct H as [H|H]; [discriminate|revert H]
-         | |- In _ (remove_one _ _) -> _ => let H := fresh in intros H; apply in_remove_one in H; revert H
-         end; auto.
-#[export] Hint Extern 1 (nofile _) => solve_nofile : rk.
 Ltac solve_nolock :=
   unfold nolock; intros ?p; simpl;
   repeat match goal with |- context [if ?b then _ else _] => destruct b; simpl end;
@@ -461,15 +404,16 @@ Proof.
 Qed.
 #[export] Hint Resolve R_ftmsg : rk.
 
-Lemma R_ftadd : forall k f s0 x, g_ft (s_cfg x) = true -> nolock f -> reachk k s0 x -> reachk k s0 (updp k f x).
-Proof. intros. eapply rk_step; eauto. apply b_ftadd; auto. Qed.
-
 Lemma R_ft : forall k s0 x, reachk k s0 x -> reachk k s0 (process_ft k x).
-Proof.
-  intros. unfold process_ft. repeat dm; repeat dmhyp; sndfix; fin.
-  all: try (eapply R_woc; [eassumption|]; apply R_lock; apply R_ftmsg; apply R_ftadd; fin).
-Qed.
+Proof. intros. unfold process_ft. go. Qed.
 #[export] Hint Resolve R_ft : rk.
+
+Lemma R_scaling_setup : forall k a b s0 x, reachk k s0 x -> reachk k s0 (scaling_setup k a b x).
+Proof. intros. unfold scaling_setup. go. Qed.
+#[export] Hint Resolve R_scaling_setup : rk.
+Lemma R_setscale : forall k s0 x, reachk k s0 x -> reachk k s0 (process_setscale k x).
+Proof. intros. unfold process_setscale. go. Qed.
+#[export] Hint Resolve R_setscale : rk.
 
 Lemma R_normal : forall k cur s0 x, reachk k s0 x -> reachk k s0 (process_normal k cur x).
 Proof. intros. unfold process_normal. go. Qed.
@@ -509,14 +453,8 @@ Lemma R_cuttext_one : forall k s0 x, reachk k s0 x -> reachk k s0 (cuttext_one x
 Proof.
   intros. unfold cuttext_one. go.
 Qed.
-Lemma cfg_lock_send : forall k x, s_cfg (lock_send k x) = s_cfg x.
-Proof. intros. unfold lock_send. destruct (live x k); auto. destruct (p_sendlock (c_proto c)); auto. Qed.
 Lemma R_cuttext8_one : forall k s0 x, reachk k s0 x -> reachk k s0 (cuttext8_one x k).
-Proof.
-  intros. unfold cuttext8_one. destruct (is_open x k && negb (g_fix_cut8 (s_cfg x))) eqn:E; auto.
-  apply andb_true_iff in E. destruct E as [_ E]. apply negb_true_iff in E.
-  apply R_sendlock; [rewrite cfg_lock_send; exact E | apply R_lock; auto].
-Qed.
+Proof. intros. unfold cuttext8_one. go. Qed.
 Lemma R_mark_one : forall k s0 x, reachk k s0 x -> reachk k s0 (mark_one x k).
 Proof. intros. unfold mark_one. go. Qed.
 #[export] Hint Resolve R_reap_one R_shutdown_one R_cleanup_one R_bell_one R_cuttext_one R_cuttext8_one R_mark_one : rk.
@@ -529,9 +467,6 @@ Proof.
   2:{ exists c. split; auto. rewrite (bstep_frame _ _ _ H j Hn). auto. }
   destruct H; try (exists c; split; auto; fail).
   - rewrite get_updp_same, Hc. simpl. eexists; split; eauto. rewrite on_proto_life. auto.
-  - rewrite get_updp_same, Hc. simpl. eexists; split; eauto. rewrite on_proto_life. auto.
-  - rewrite get_updp_same, Hc. simpl. eexists; split; eauto. rewrite on_proto_life. auto.
-  - rewrite get_updp_same, Hc. simpl. eexists; split; eauto. rewrite on_proto_life. auto.
   - unfold close_client. destruct (s_hung s); eauto. destruct (live s k) as [c0|] eqn:E; eauto.
     destruct (live_some _ _ _ E) as [Hg _]. rewrite Hg in Hc. inversion Hc; subst c0.
     destruct (l_open (c_life c)); eauto. unfold get; simpl. rewrite nth_upd_same. unfold get in Hg. rewrite Hg. simpl.
@@ -539,10 +474,9 @@ Proof.
   - unfold connection_gone. destruct (s_hung s); eauto. destruct (live s k) as [c0|] eqn:E; eauto.
     destruct (live_some _ _ _ E) as [Hg _]. rewrite Hg in Hc. inversion Hc; subst c0.
     destruct (p_outlock (c_proto c) || p_sendlock (c_proto c)).
-    { destruct (g_fix_ftfd (s_cfg s)); eauto.
-      assert (E2 : get (updp k drop_ft s) k = option_map (on_proto drop_ft) (get s k)) by apply get_updp_same.
+    { assert (E2 : get (updp k drop_ft s) k = option_map (on_proto drop_ft) (get s k)) by apply get_updp_same.
       rewrite Hg in E2. simpl in E2. eexists. split; [exact E2|]. rewrite on_proto_life. auto. }
-    unfold get in *. simpl.
+    unfold get, adj_ref in *. destruct (p_scaled (c_proto c)); simpl;
     destruct (s_ptr s) as [j0|]; simpl; try destruct (Nat.eqb j0 k); simpl;
       rewrite nth_upd_same, Hg; simpl; eexists; split; eauto.
 Qed.
@@ -560,6 +494,8 @@ Inductive gstep : screen -> screen -> Prop :=
   | g_k : forall k s s', bstep k s s' -> gstep s s'
   | g_faults : forall v s, gstep s (set_faults v s)
   | g_cleaned : forall s, gstep s (set_cleaned true s)
+  | g_pending : forall v s, gstep s (set_pending v s)
+  | g_unlisten : forall s, gstep s (set_listening false (set_fds (remove_fd LISTEN_FD (s_allfds s)) (s_maxfd s) s))
   | g_add : forall pre po s, gstep s (add_conn pre po s)
   | g_hook : forall k s c, live s k = Some c -> l_new (c_life c) = 0%nat -> gstep s (run_new_hook k s).
 
@@ -592,15 +528,15 @@ Proof.
   - eapply bstep_inv; eauto.
   - exact I.
   - exact I.
+  - exact I.
+  - exact I.
   - (* add_conn *)
     destruct I as [HF [HN HO]]. set (k := length (s_conns s)).
     split.
     + simpl. apply Forall_app. split; auto. constructor; auto.
       unfold conn_ok, new_conn; simpl. split.
       * unfold life_ok; simpl. repeat split; auto; intros; discriminate.
-      * split; [intros; discriminate|]. split; [auto|]. split; [intros r []|]. split; [|auto].
-        intros _. split; auto. intros Hin. simpl in Hin.
-        repeat (destruct Hin as [Hin|Hin]; [discriminate|]). auto.
+      * split; [intros; discriminate|auto].
     + split.
       * simpl. constructor; auto. intros Hin. apply HO in Hin. destruct Hin as [c [Hc _]].
         apply get_lt in Hc. fold k in Hc. lia.
@@ -617,7 +553,7 @@ Proof.
   - (* newClientHook *)
     destruct (live_some _ _ _ H) as [Hg Hfr].
     eapply inv_upd with (k := k) (g := fun c => _); simpl; eauto.
-    intros c0 Hc0 (L & R1 & R2 & R3 & R4 & R5). rewrite Hg in Hc0. inversion Hc0; subst c0. simpl. split; auto.
+    intros c0 Hc0 (L & R1 & R2). rewrite Hg in Hc0. inversion Hc0; subst c0. simpl. split; auto.
     unfold conn_ok; simpl. split.
     + destruct L as (A & B & C). destruct (C Hfr) as [G X].
       unfold life_ok, hook_life; simpl. rewrite H0. repeat split; auto; intros; congruence.
@@ -691,22 +627,13 @@ Proof.
   all: gfin k.
 Qed.
 
-Lemma G_check_fds : forall s0 x, reach s0 x -> reach s0 (check_fds x).
-Proof.
-  intros. unfold check_fds. dm; auto. apply G_fold; auto. intros y j Hy.
-  repeat dm; auto. apply G_message; auto.
-Qed.
-
-Lemma G_events : forall s0 x, reach s0 x -> reach s0 (process_events x).
-Proof.
-  intros. unfold process_events. apply G_fold; [|apply G_check_fds; auto].
-  intros y j Hy. eapply (G_k j); [|exact Hy]. fin.
-Qed.
-
 Lemma G_shutdown : forall s0 x, reach s0 x -> reach s0 (shutdown_server x).
 Proof.
-  intros. unfold shutdown_server. apply G_fold; auto.
-  intros y j Hy. eapply (G_k j); [|exact Hy]. fin.
+  intros. unfold shutdown_server.
+  assert (R : reach s0 (fold_left shutdown_one (s_order x) x)).
+  { apply G_fold; auto. intros y j Hy. eapply (G_k j); [|exact Hy]. fin. }
+  destruct (s_listening (fold_left shutdown_one (s_order x) x)); auto.
+  eapply r_step; [exact R | apply g_unlisten].
 Qed.
 
 Lemma G_cleanup : forall s0 x, reach s0 x -> reach s0 (screen_cleanup x).
@@ -762,11 +689,34 @@ Proof.
   - eapply (G_k k); [|exact H2]. fin.
 Qed.
 
+Lemma G_client_loop : forall rd s0 x, reach s0 x -> reach s0 (client_loop rd x).
+Proof.
+  intros. unfold client_loop. apply G_fold; auto. intros y j Hy.
+  repeat dm; auto. apply G_message; auto.
+Qed.
+
+Lemma G_check_fds : forall s0 x, reach s0 x -> reach s0 (check_fds x).
+Proof.
+  intros. unfold check_fds.
+  destruct (if s_listening x then s_pending x else []) as [|[[d pre] po] rest].
+  - dm; auto. apply G_client_loop; auto.
+  - assert (reach s0 (accept d pre po (set_pending rest x))).
+    { apply G_accept. eapply r_step; [exact H | apply g_pending]. }
+    dm; auto. apply G_client_loop; auto.
+Qed.
+
+Lemma G_events : forall s0 x, reach s0 x -> reach s0 (process_events x).
+Proof.
+  intros. unfold process_events. apply G_fold; [|apply G_check_fds; auto].
+  intros y j Hy. eapply (G_k j); [|exact Hy]. fin.
+Qed.
+
 Lemma G_step : forall o s0 x, reach s0 x -> reach s0 (step x o).
 Proof.
   intros o s0 x H. unfold step. destruct (s_hung x || s_cleaned x); auto.
   destruct o.
   - apply G_accept; auto.
+  - eapply r_step; [exact H | apply g_pending].
   - eapply (G_k k); [|exact H]. fin.
   - eapply (G_k k); [|exact H]. fin.
   - apply G_events; auto.
@@ -818,7 +768,7 @@ Proof.
   destruct (live s k) as [c|] eqn:E; [|intros _; apply live_none; auto].
   destruct (live_some _ _ _ E) as [Hg _].
   destruct (p_outlock (c_proto c) || p_sendlock (c_proto c)); [simpl; congruence|].
-  intros _. unfold freed_at, get in *. simpl.
+  intros _. unfold freed_at, get, adj_ref in *. destruct (p_scaled (c_proto c)); simpl;
   destruct (s_ptr s) as [j0|]; simpl; try destruct (Nat.eqb j0 k); simpl; rewrite nth_upd_same, Hg; simpl; auto.
 Qed.
 
@@ -899,50 +849,83 @@ Proof.
     + unfold settled. rewrite F2 by auto. apply freed_settled. apply not_in_order_freed; auto.
 Qed.
 
-Lemma shutdown_one_frees : forall s k, settled s k -> s_hung (shutdown_one s k) = false -> freed_at (shutdown_one s k) k.
+(* rfbShutdownServer visits every record still in the list, closed or not *)
+Lemma shutdown_one_frees : forall s k, s_hung (shutdown_one s k) = false -> freed_at (shutdown_one s k) k.
 Proof.
-  intros s k St. unfold shutdown_one, is_open. destruct (live s k) as [c|] eqn:E.
-  - destruct (live_some _ _ _ E) as [Hg Hf]. destruct (l_open (c_life c)) eqn:Eo.
-    + intros Hh. apply gone_frees; auto.
-    + unfold settled in St. rewrite Hg in St. destruct St; congruence.
-  - destruct (g_fix_iter (s_cfg s)); intros Hh; [apply gone_frees; auto | apply live_none; auto].
+  intros s k. unfold shutdown_one. destruct (is_open s k); intros Hh; apply gone_frees; auto.
 Qed.
 
-(* with fix 3 the shutdown visits every record still in the list *)
-Lemma shutdown_one_frees_fixed : forall s k, g_fix_iter (s_cfg s) = true ->
-  s_hung (shutdown_one s k) = false -> freed_at (shutdown_one s k) k.
-Proof.
-  intros s k Hfx. unfold shutdown_one. rewrite Hfx. destruct (is_open s k); intros Hh; apply gone_frees; auto.
-Qed.
+Lemma folds_reach : forall s, reach s (fold_left shutdown_one (s_order s) s).
+Proof. intros. apply fold_k_reach. apply R_shutdown_one0. Qed.
 
-Lemma shutdown_frees_all : forall s, inv s -> (forall k, settled s k) ->
+Lemma shutdown_frees_all : forall s, inv s ->
   s_hung (shutdown_server s) = false -> forall k, freed_at (shutdown_server s) k.
 Proof.
-  intros s I St Hh k. unfold shutdown_server in *.
-  destruct (fold_clients shutdown_one R_shutdown_one0 (fun _ => True) (fun _ _ H => H) freed_at settled)
-    with (l := s_order s) (s := s) as [F1 F2]; auto.
-  - unfold freed_at. intros ? ? ? E. rewrite E. auto.
-  - unfold settled. intros s0 a k0 Hn. rewrite (reachk_frame _ _ _ (R_shutdown_one0 s0 a) k0 Hn). auto.
-  - apply freed_settled.
-  - intros ? ? _. apply shutdown_one_frees.
-  - destruct (in_dec Nat.eq_dec k (s_order s)) as [Hin|Hn].
-    + apply F1; auto.
-    + unfold freed_at. rewrite F2 by auto. apply not_in_order_freed; auto.
+  intros s I Hh k.
+  assert (Hh1 : s_hung (fold_left shutdown_one (s_order s) s) = false).
+  { unfold shutdown_server in Hh. destruct (s_listening (fold_left shutdown_one (s_order s) s)); auto. }
+  assert (F : freed_at (fold_left shutdown_one (s_order s) s) k).
+  { destruct (fold_clients shutdown_one R_shutdown_one0 (fun _ => True) (fun _ _ H => H))
+      with (P := freed_at) (Q := fun (_ : screen) (_ : nat) => True) (l := s_order s) (s := s) as [F1 F2]; auto.
+    - unfold freed_at. intros ? ? ? E. rewrite E. auto.
+    - intros s0 k0 _ _ Hh0. apply shutdown_one_frees; auto.
+    - destruct (in_dec Nat.eq_dec k (s_order s)) as [Hin|Hn].
+      + apply F1; auto.
+      + unfold freed_at. rewrite F2 by auto. apply not_in_order_freed; auto. }
+  unfold shutdown_server. destruct (s_listening (fold_left shutdown_one (s_order s) s)); auto.
 Qed.
 
-Lemma shutdown_frees_all_fixed : forall s, inv s -> g_fix_iter (s_cfg s) = true ->
-  s_hung (shutdown_server s) = false -> forall k, freed_at (shutdown_server s) k.
+(* ------------------------------------------------------------------ no teardown ever blocks *)
+Definition locks_clear (s : screen) : Prop :=
+  Forall (fun c => p_outlock (c_proto c) = false /\ p_sendlock (c_proto c) = false) (s_conns s).
+Definition NH (s : screen) : Prop := s_hung s = false /\ locks_clear s.
+
+Lemma locks_updp : forall k f s, nolock f -> locks_clear s -> locks_clear (updp k f s).
 Proof.
-  intros s I Hfx Hh k. unfold shutdown_server in *.
-  destruct (fold_clients shutdown_one R_shutdown_one0 (fun s => g_fix_iter (s_cfg s) = true)) 
-    with (P := freed_at) (Q := fun (_ : screen) (_ : nat) => True) (l := s_order s) (s := s) as [F1 F2]; auto.
-  - intros s0 k0 Hq. destruct (reachk_cfg _ _ _ (R_shutdown_one0 s0 k0)) as (A & _). rewrite A. exact Hq.
-  - unfold freed_at. intros ? ? ? E. rewrite E. auto.
-  - intros s0 k0 Hq _ Hh0. apply shutdown_one_frees_fixed; auto.
-  - destruct (in_dec Nat.eq_dec k (s_order s)) as [Hin|Hn].
-    + apply F1; auto.
-    + unfold freed_at. rewrite F2 by auto. apply not_in_order_freed; auto.
+  intros k f s Hn HL. unfold locks_clear, updp. simpl. apply Forall_upd; auto.
+  intros c _ [A B]. unfold on_proto. destruct (l_freed (c_life c)); simpl; auto.
+  destruct (Hn (c_proto c)) as [E1 E2]. rewrite E1, E2. auto.
 Qed.
+
+Lemma live_locks : forall s k c, locks_clear s -> live s k = Some c ->
+  p_outlock (c_proto c) || p_sendlock (c_proto c) = false.
+Proof.
+  intros s k c HL H. destruct (live_some _ _ _ H) as [Hg _].
+  destruct (Forall_nth _ _ _ _ _ HL Hg) as [A B]. rewrite A, B. reflexivity.
+Qed.
+
+Lemma bstep_nh : forall k s s', bstep k s s' -> NH s -> NH s'.
+Proof.
+  intros k s s' H (Hh & HL). destruct H; try (split; auto; fail).
+  - split; auto. apply locks_updp; auto.
+  - (* close *) unfold close_client. rewrite Hh. destruct (live s k) as [c|] eqn:E; [|split; auto].
+    destruct (l_open (c_life c)); [|split; auto].
+    split; auto. unfold locks_clear. simpl. apply Forall_upd; auto.
+    intros x Hx _. destruct (live_some _ _ _ E) as [Hg _]. unfold get in Hg. rewrite Hg in Hx. inversion Hx; subst x.
+    simpl. destruct (Forall_nth _ _ _ _ _ HL Hg). auto.
+  - (* gone *) unfold connection_gone. rewrite Hh. destruct (live s k) as [c|] eqn:E; [|split; auto].
+    rewrite (live_locks _ _ _ HL E).
+    destruct (live_some _ _ _ E) as [Hg _].
+    assert (Hc : p_outlock (c_proto c) = false /\ p_sendlock (c_proto c) = false) by (apply (Forall_nth _ _ _ _ _ HL Hg)).
+    unfold adj_ref. destruct (p_scaled (c_proto c)); simpl;
+    destruct (s_ptr s) as [j0|] eqn:Ep; simpl; rewrite ?Ep; simpl; try destruct (Nat.eqb j0 k); simpl;
+      split; auto; unfold locks_clear; simpl; apply Forall_upd; auto; intros x _ _; simpl; auto.
+  - rewrite (live_locks _ _ _ HL H) in H0. discriminate.
+Qed.
+
+Lemma gstep_nh : forall s s', gstep s s' -> NH s -> NH s'.
+Proof.
+  intros s s' H N. destruct H; try exact N.
+  - eapply bstep_nh; eauto.
+  - destruct N as (Hh & HL). split; auto. unfold locks_clear. simpl. apply Forall_app. split; auto.
+  - destruct N as (Hh & HL). split; auto. unfold locks_clear, run_new_hook. simpl. apply Forall_upd; auto.
+Qed.
+
+Lemma reach_nh : forall s s', reach s s' -> NH s -> NH s'.
+Proof. intros s s' H. induction H; auto. intros N. eapply gstep_nh; eauto. Qed.
+
+Lemma reach_never_hung : forall s s', reach s s' -> NH s -> s_hung s' = false.
+Proof. intros s s' R N. destruct (reach_nh _ _ R N). auto. Qed.
 
 (* ------------------------------------------------------------------ statements about whole runs *)
 Lemma run_app : forall cfg a b, run cfg (a ++ b) = fold_left step b (run cfg a).
@@ -954,30 +937,37 @@ Proof.
   rewrite A. reflexivity.
 Qed.
 
+Lemma nh_run : forall cfg ops, NH (run cfg ops).
+Proof.
+  intros. eapply reach_nh; [apply reach_run_from; apply r_refl|]. split; auto. constructor.
+Qed.
+
+Theorem never_blocks : forall cfg ops, s_hung (run cfg ops) = false.
+Proof. intros. destruct (nh_run cfg ops). auto. Qed.
+
 Theorem exactly_once_invariant : forall cfg ops k c, get (run cfg ops) k = Some c -> life_ok (c_life c).
 Proof.
   intros cfg ops k c H. destruct (inv_run cfg ops) as [HF _].
   destruct (Forall_nth _ _ _ _ _ HF H) as [L _]. exact L.
 Qed.
 
-Lemma step_active : forall s o, s_hung (step s o) = false -> s_cleaned (step s o) = false ->
-  s_hung s = false /\ s_cleaned s = false.
+Lemma step_uncleaned : forall s o, s_cleaned (step s o) = false -> s_cleaned s = false.
 Proof.
-  intros s o Hh Hc. split.
-  - eapply reach_hung_back; [|exact Hh]. apply G_step. apply r_refl.
-  - destruct (s_cleaned s) eqn:E; auto. unfold step in Hc. rewrite E, orb_true_r in Hc. congruence.
+  intros s o Hc. destruct (s_cleaned s) eqn:E; auto. unfold step in Hc. rewrite E, orb_true_r in Hc. congruence.
 Qed.
 
 Theorem reaped_when_idle : forall cfg ops,
   let s := run cfg (ops ++ [OPe]) in
-  s_hung s = false -> s_cleaned s = false ->
+  s_cleaned s = false ->
   forall k c, get s k = Some c ->
     l_open (c_life c) = true \/
     (l_freed (c_life c) = true /\ l_close (c_life c) = 1%nat /\ l_gone (c_life c) = l_new (c_life c)).
 Proof.
-  intros cfg ops s Hh Hc k c Hg. unfold s in *. rewrite run_app in *. simpl in *.
+  intros cfg ops s Hc k c Hg.
+  assert (Hh : s_hung s = false) by apply never_blocks.
+  unfold s in *. rewrite run_app in *. simpl in *.
   set (s0 := run cfg ops) in *.
-  destruct (step_active _ _ Hh Hc) as [Hh0 Hc0].
+  assert (Hc0 := step_uncleaned _ _ Hc). assert (Hh0 : s_hung s0 = false) by apply never_blocks.
   unfold step in *. rewrite Hh0, Hc0 in *. simpl in *.
   assert (St := events_settle s0 (inv_run cfg ops) Hh k). unfold settled in St. rewrite Hg in St.
   destruct St as [Hf|Ho]; auto. right.
@@ -987,37 +977,65 @@ Proof.
 Qed.
 
 Theorem torn_down_after_shutdown : forall cfg ops,
-  let s := run cfg (ops ++ [OPe; OShutdown]) in
-  s_hung s = false -> s_cleaned s = false ->
+  let s := run cfg (ops ++ [OShutdown]) in
+  s_cleaned s = false ->
   forall k c, get s k = Some c ->
     l_freed (c_life c) = true /\ l_close (c_life c) = 1%nat /\ l_gone (c_life c) = l_new (c_life c)
     /\ (l_new (c_life c) <= 1)%nat /\ ~ In k (s_order s).
 Proof.
-  intros cfg ops s Hh Hc k c Hg. unfold s in *. rewrite run_app in *. simpl in *.
+  intros cfg ops s Hc k c Hg.
+  assert (Hh : s_hung s = false) by apply never_blocks.
+  unfold s in *. rewrite run_app in *. simpl in *.
   set (s0 := run cfg ops) in *.
-  destruct (step_active _ _ Hh Hc) as [Hh1 Hc1].
-  destruct (step_active _ _ Hh1 Hc1) as [Hh0 Hc0].
-  set (s1 := step s0 OPe) in *.
-  assert (E1 : s1 = process_events s0) by (unfold s1, step; rewrite Hh0, Hc0; reflexivity).
-  assert (E2 : step s1 OShutdown = shutdown_server s1) by (unfold step; rewrite Hh1, Hc1; reflexivity).
-  rewrite E2 in *.
-  assert (I1 : inv s1) by (rewrite E1; eapply reach_inv; [apply G_events; apply r_refl | apply inv_run]).
-  assert (St : forall j, settled s1 j) by (intros j; rewrite E1; apply events_settle; [apply inv_run | rewrite <- E1; exact Hh1]).
-  assert (Fr := shutdown_frees_all s1 I1 St Hh k). unfold freed_at in Fr. rewrite Hg in Fr.
-  assert (I2 : inv (shutdown_server s1)) by (eapply reach_inv; [apply G_shutdown; apply r_refl | exact I1]).
+  assert (Hc0 := step_uncleaned _ _ Hc). assert (Hh0 : s_hung s0 = false) by apply never_blocks.
+  assert (E : step s0 OShutdown = shutdown_server s0) by (unfold step; rewrite Hh0, Hc0; reflexivity).
+  rewrite E in *.
+  assert (Fr := shutdown_frees_all s0 (inv_run cfg ops) Hh k). unfold freed_at in Fr. rewrite Hg in Fr.
+  assert (I2 : inv (shutdown_server s0)) by (eapply reach_inv; [apply G_shutdown; apply r_refl | apply inv_run]).
   destruct I2 as [HF [_ HO]]. destruct (Forall_nth _ _ _ _ _ HF Hg) as [(A & B & C) _].
   destruct (B Fr) as (B1 & B2 & B3). repeat split; auto.
   intros Hin. apply HO in Hin. destruct Hin as [c' [Hc' Hf']]. rewrite Hg in Hc'. inversion Hc'; subst. congruence.
 Qed.
 
-(* released resources, reachability, frame *)
-Theorem released_after_gone : forall cfg ops k c, get (run cfg ops) k = Some c -> l_freed (c_life c) = true ->
-  p_res (c_proto c) = [] /\ (forall r, In r (c_leak c) -> r = RFileFd) /\
-  (g_ft cfg = false \/ g_fix_ftfd cfg = true -> c_leak c = []).
+(* rfbScreenCleanup alone does the same *)
+Lemma cleanup_frees_all : forall s, inv s -> s_hung (screen_cleanup s) = false -> forall k, freed_at (screen_cleanup s) k.
 Proof.
-  intros cfg ops k c H Hf. destruct (inv_run cfg ops) as [HF _].
-  destruct (Forall_nth _ _ _ _ _ HF H) as (L & R1 & R2 & R3 & R4 & R5). rewrite run_cfg in R4, R5.
-  split; auto. split; auto. intros [Hft|Hfx]; [apply R4; auto | apply R5; auto].
+  intros s I Hh k. unfold screen_cleanup in *. simpl in Hh.
+  assert (R0 : forall y j, reachk j y (cleanup_one y j)) by (intros; apply R_cleanup_one; apply rk_refl).
+  assert (F : freed_at (fold_left cleanup_one (s_order s) s) k).
+  { destruct (fold_clients cleanup_one R0 (fun _ => True) (fun _ _ H => H))
+      with (P := freed_at) (Q := fun (_ : screen) (_ : nat) => True) (l := s_order s) (s := s) as [F1 F2]; auto.
+    - unfold freed_at. intros ? ? ? E. rewrite E. auto.
+    - intros s0 k0 _ _ Hh0. unfold cleanup_one in *. apply gone_frees; auto.
+    - destruct (in_dec Nat.eq_dec k (s_order s)) as [Hin|Hn].
+      + apply F1; auto.
+      + unfold freed_at. rewrite F2 by auto. apply not_in_order_freed; auto. }
+  exact F.
+Qed.
+
+Theorem torn_down_after_cleanup : forall cfg ops,
+  s_cleaned (run cfg ops) = false ->
+  forall k c, get (run cfg (ops ++ [OCleanup])) k = Some c ->
+    l_freed (c_life c) = true /\ l_close (c_life c) = 1%nat /\ l_gone (c_life c) = l_new (c_life c).
+Proof.
+  intros cfg ops Hc0 k c Hg. rewrite run_app in Hg. simpl in Hg.
+  set (s0 := run cfg ops) in *. assert (Hh0 : s_hung s0 = false) by apply never_blocks.
+  assert (E : step s0 OCleanup = screen_cleanup s0) by (unfold step; rewrite Hh0, Hc0; reflexivity).
+  rewrite E in Hg.
+  assert (R : reach s0 (screen_cleanup s0)) by (apply G_cleanup; apply r_refl).
+  assert (Hh : s_hung (screen_cleanup s0) = false) by (eapply reach_never_hung; [exact R | apply nh_run]).
+  assert (Fr := cleanup_frees_all s0 (inv_run cfg ops) Hh k). unfold freed_at in Fr. rewrite Hg in Fr.
+  assert (I2 : inv (screen_cleanup s0)) by (eapply reach_inv; [exact R | apply inv_run]).
+  destruct I2 as [HF _]. destruct (Forall_nth _ _ _ _ _ HF Hg) as [(A & B & C) _].
+  destruct (B Fr) as (B1 & B2 & B3). auto.
+Qed.
+
+(* released resources, reachability, frame *)
+Theorem released_after_gone : forall cfg ops k c, get (run cfg ops) k = Some c ->
+  c_leak c = [] /\ (l_freed (c_life c) = true -> p_res (c_proto c) = []).
+Proof.
+  intros cfg ops k c H. destruct (inv_run cfg ops) as [HF _].
+  destruct (Forall_nth _ _ _ _ _ HF H) as (L & R1 & R2). auto.
 Qed.
 
 Theorem listed_iff_not_freed : forall cfg ops k,
@@ -1046,189 +1064,67 @@ Proof.
   - apply R_reap_one0.
 Qed.
 
-(* the shared fields a teardown may change besides the record itself *)
-Theorem teardown_shared_fields : forall k s,
-  s_cfg (connection_gone k s) = s_cfg s /\ s_faults (connection_gone k s) = s_faults s /\
-  s_ioc (connection_gone k s) = s_ioc s /\ s_bad (connection_gone k s) = s_bad s /\
-  s_cfg (close_client k s) = s_cfg s /\ s_ref (close_client k s) = s_ref s /\ s_ptr (close_client k s) = s_ptr s /\
-  s_order (close_client k s) = s_order s.
+(* the scaled-screen references: a teardown changes exactly the count of the screen the client
+   referenced, by -1, and nothing else in the chain *)
+Theorem gone_releases_own_reference : forall k s c, s_hung s = false -> live s k = Some c ->
+  p_outlock (c_proto c) || p_sendlock (c_proto c) = false ->
+  let s' := connection_gone k s in
+  if p_scaled (c_proto c)
+  then s_ref s' = s_ref s /\ s_scaled s' = adj_scaled (p_sw (c_proto c)) (p_sh (c_proto c)) (-1) (s_scaled s)
+  else s_ref s' = (s_ref s - 1)%Z /\ s_scaled s' = s_scaled s.
 Proof.
-  intros. unfold connection_gone, close_client. destruct (s_hung s); auto 10.
-  destruct (live s k); auto 10.
-  repeat split; try (destruct (l_open (c_life c)); reflexivity).
-  all: destruct (p_outlock (c_proto c) || p_sendlock (c_proto c)); [destruct (g_fix_ftfd (s_cfg s)); auto|].
-  all: simpl; destruct (s_ptr s) as [j0|]; simpl; try destruct (Nat.eqb j0 k); auto.
+  intros k s c Hh E HL. unfold connection_gone. rewrite Hh, E, HL. unfold adj_ref.
+  destruct (p_scaled (c_proto c)); simpl; destruct (s_ptr s) as [j0|]; simpl; try destruct (Nat.eqb j0 k); simpl; auto.
 Qed.
 
-(* ------------------------------------------------------------------ refutations (witnesses by computation) *)
-Definition cfg0 : config := mkConfig 8 8 false false false false false false false false false false.
-Definition cfg_ft : config := mkConfig 8 8 false false false false false true false false false false.
+Theorem close_keeps_references : forall k s, s_ref (close_client k s) = s_ref s /\ s_scaled (close_client k s) = s_scaled s
+  /\ s_ptr (close_client k s) = s_ptr s /\ s_order (close_client k s) = s_order s /\ s_cfg (close_client k s) = s_cfg s.
+Proof.
+  intros. unfold close_client. destruct (s_hung s); auto. destruct (live s k); auto.
+  destruct (l_open (c_life c)); auto.
+Qed.
+
+(* ------------------------------------------------------------------ witnesses (by computation) *)
+Definition cfg0 : config := mkConfig 8 8 false false false false false false.
+Definition cfg_ft : config := mkConfig 8 8 false false false false false true.
 
 Definition ver38 : list Z := [82; 70; 66; 32; 48; 48; 51; 46; 48; 48; 56; 10]%Z.
 Definition ft_request : list Z := ([7; 3; 0; 0; 0; 0; 0; 0; 0; 0; 0; 16] ++ existing_file)%Z.
 Definition hs (k : nat) : list op := [OIn k ver38; OPe; OIn k [1%Z]; OPe; OIn k [1%Z]; OPe].
 
-(* a client closed by the application and not yet reaped is skipped by rfbShutdownServer and
-   rfbScreenCleanup: its clientGoneHook never runs, its record is never freed *)
-Lemma shutdown_skips_closed_client :
-  exists ops k c, let s := run cfg0 (ops ++ [OShutdown; OCleanup]) in
-    s_hung s = false /\ get s k = Some c /\ l_new (c_life c) = 1%nat /\ l_gone (c_life c) = 0%nat /\
-    l_freed (c_life c) = false.
-Proof.
-  exists [OAccept DAccept [] true; OAppClose 0], 0%nat. vm_compute. eexists. repeat split.
-Qed.
-
-(* cl->fileTransfer.fd is not released by rfbClientConnectionGone *)
-Lemma filetransfer_fd_leaks :
-  exists ops k c, let s := run cfg_ft ops in
-    s_hung s = false /\ get s k = Some c /\ l_freed (c_life c) = true /\ c_leak c = [RFileFd].
-Proof.
-  exists ([OAccept DAccept [] true] ++ hs 0 ++ [OIn 0 ft_request; OPe; OPeerClose 0; OPe]), 0%nat.
-  vm_compute. eexists. repeat split.
-Qed.
-
-(* a file-transfer request followed by a disconnect: rfbWriteExact returns with outputMutex held,
-   rfbClientConnectionGone then locks it again.  No injected fault, no callback involved. *)
-Lemma teardown_can_deadlock :
-  exists ops, s_hung (run cfg_ft ops) = true /\
-              Forall (fun o => match o with OFault _ _ | OAppXvp _ | OCutText8 => False | _ => True end) ops.
-Proof.
-  exists ([OAccept DAccept [] true] ++ hs 0 ++ [OIn 0 ft_request; OPeerClose 0; OPe]).
-  split; [vm_compute; reflexivity|]. repeat constructor.
-Qed.
-
-(* non-vacuity: a run that is neither hung nor cleaned, with a connection torn down exactly once *)
 Lemma idle_nonvacuous :
   let s := run cfg0 ([OAccept DAccept [] true; OAccept DAccept [] true; OPeerClose 0] ++ [OPe]) in
-  s_hung s = false /\ s_cleaned s = false /\
+  s_cleaned s = false /\
+  exists c, get s 0%nat = Some c /\ l_freed (c_life c) = true /\ l_gone (c_life c) = 1%nat.
+Proof. vm_compute. split; auto. eexists. repeat split. Qed.
+
+(* the former defects C12-N1 / C12-F7 / C12-F14a / C12-N2 (fixed in /repo): their witnesses now end well *)
+Lemma shutdown_nonvacuous :
+  let s := run cfg0 ([OAccept DAccept [] true; OAccept DHold [] true; OAppClose 0] ++ [OShutdown]) in
+  s_cleaned s = false /\ length (s_conns s) = 2%nat /\
   exists c, get s 0%nat = Some c /\ l_freed (c_life c) = true /\ l_gone (c_life c) = 1%nat.
 Proof. vm_compute. repeat split. eexists. repeat split. Qed.
 
-Lemma shutdown_nonvacuous :
-  let s := run cfg0 ([OAccept DAccept [] true; OAccept DHold [] true; OAppClose 0] ++ [OPe; OShutdown]) in
-  s_hung s = false /\ s_cleaned s = false /\ length (s_conns s) = 2%nat.
+Lemma former_witnesses :
+  (exists c, get (run cfg_ft ([OAccept DAccept [] true] ++ hs 0 ++ [OIn 0 ft_request; OPeerClose 0; OPe; OCutText8; OPe])) 0%nat = Some c
+             /\ l_freed (c_life c) = true /\ l_gone (c_life c) = 1%nat /\ c_leak c = []) /\
+  (exists c, get (run cfg0 ([OAccept DAccept [] true; OAppClose 0] ++ [OCleanup])) 0%nat = Some c
+             /\ l_freed (c_life c) = true /\ l_gone (c_life c) = 1%nat).
+Proof. split; vm_compute; eexists; repeat split. Qed.
+
+(* two clients on the same scaled screen, one on the unscaled one: every teardown gives back exactly
+   its own reference *)
+Definition setscale (f : Z) : list Z := [8; f; 0; 0]%Z.
+Lemma scaled_nonvacuous :
+  let pre := [OAccept DAccept [] true] ++ hs 0 ++ [OAccept DAccept [] true] ++ hs 1 ++ [OAccept DAccept [] true] ++ hs 2
+             ++ [OIn 0 (setscale 2); OPe; OIn 1 (15 :: tl (setscale 2))%Z; OPe] in
+  s_scaled (run cfg0 pre) = [(4, 4, 2)]%Z /\ s_ref (run cfg0 pre) = 1%Z /\
+  s_scaled (run cfg0 (pre ++ [OPeerClose 0; OPe])) = [(4, 4, 1)]%Z /\ s_ref (run cfg0 (pre ++ [OPeerClose 0; OPe])) = 1%Z /\
+  s_scaled (run cfg0 (pre ++ [OShutdown])) = [(4, 4, 0)]%Z /\ s_ref (run cfg0 (pre ++ [OShutdown])) = 0%Z.
 Proof. vm_compute. repeat split. Qed.
 
-(* ------------------------------------------------------------------ with the proposed fixes (switches in the configuration) *)
-Theorem torn_down_after_shutdown_fixed : forall cfg ops, g_fix_iter cfg = true ->
-  let s := run cfg (ops ++ [OShutdown]) in
-  s_hung s = false -> s_cleaned s = false ->
-  forall k c, get s k = Some c ->
-    l_freed (c_life c) = true /\ l_close (c_life c) = 1%nat /\ l_gone (c_life c) = l_new (c_life c).
-Proof.
-  intros cfg ops Hfx s Hh Hc k c Hg. unfold s in *. rewrite run_app in *. simpl in *.
-  set (s0 := run cfg ops) in *.
-  destruct (step_active _ _ Hh Hc) as [Hh0 Hc0].
-  assert (E : step s0 OShutdown = shutdown_server s0) by (unfold step; rewrite Hh0, Hc0; reflexivity).
-  rewrite E in *.
-  assert (Hfx0 : g_fix_iter (s_cfg s0) = true) by (unfold s0; rewrite run_cfg; exact Hfx).
-  assert (Fr := shutdown_frees_all_fixed s0 (inv_run cfg ops) Hfx0 Hh k). unfold freed_at in Fr. rewrite Hg in Fr.
-  assert (I2 : inv (shutdown_server s0)) by (eapply reach_inv; [apply G_shutdown; apply r_refl | apply inv_run]).
-  destruct I2 as [HF _]. destruct (Forall_nth _ _ _ _ _ HF Hg) as [(A & B & C) _].
-  destruct (B Fr) as (B1 & B2 & B3). auto.
-Qed.
-
-Definition cfg_fixed : config := mkConfig 8 8 false false false false false true true true true true.
-
-Lemma shutdown_fixed_nonvacuous :
-  let s := run cfg_fixed ([OAccept DAccept [] true; OAccept DHold [] true; OAppClose 0] ++ [OShutdown]) in
-  s_hung s = false /\ s_cleaned s = false /\
-  exists c, get s 0%nat = Some c /\ l_freed (c_life c) = true /\ l_gone (c_life c) = 1%nat.
-Proof. vm_compute. repeat split. eexists. repeat split. Qed.
-
-(* the three witnesses above no longer work when the switches are on *)
-Lemma witnesses_fixed :
-  s_hung (run cfg_fixed ([OAccept DAccept [] true] ++ hs 0 ++ [OIn 0 ft_request; OPeerClose 0; OPe])) = false /\
-  (forall c, get (run cfg_fixed ([OAccept DAccept [] true] ++ hs 0 ++ [OIn 0 ft_request; OPe; OPeerClose 0; OPe])) 0%nat = Some c ->
-             c_leak c = []) /\
-  (forall c, get (run cfg_fixed ([OAccept DAccept [] true; OAppClose 0] ++ [OShutdown; OCleanup])) 0%nat = Some c ->
-             l_gone (c_life c) = 1%nat /\ l_freed (c_life c) = true).
-Proof.
-  split; [vm_compute; reflexivity|]. split.
-  - vm_compute. intros c H. inversion H; subst; reflexivity.
-  - vm_compute. intros c H. inversion H; subst; split; reflexivity.
-Qed.
-
-(* ------------------------------------------------------------------ with fixes 1 and 4 no teardown ever blocks *)
-Definition locks_clear (s : screen) : Prop :=
-  Forall (fun c => p_outlock (c_proto c) = false /\ p_sendlock (c_proto c) = false) (s_conns s).
-Definition NH (s : screen) : Prop :=
-  g_fix_wlock (s_cfg s) = true /\ g_fix_cut8 (s_cfg s) = true /\ s_hung s = false /\ locks_clear s.
-
-Lemma locks_updp : forall k f s, nolock f -> locks_clear s -> locks_clear (updp k f s).
-Proof.
-  intros k f s Hn HL. unfold locks_clear, updp. simpl. apply Forall_upd; auto.
-  intros c _ [A B]. unfold on_proto. destruct (l_freed (c_life c)); simpl; auto.
-  destruct (Hn (c_proto c)) as [E1 E2]. rewrite E1, E2. auto.
-Qed.
-
-Lemma live_locks : forall s k c, locks_clear s -> live s k = Some c ->
-  p_outlock (c_proto c) || p_sendlock (c_proto c) = false.
-Proof.
-  intros s k c HL H. destruct (live_some _ _ _ H) as [Hg _].
-  destruct (Forall_nth _ _ _ _ _ HL Hg) as [A B]. rewrite A, B. reflexivity.
-Qed.
-
-Lemma bstep_nh : forall k s s', bstep k s s' -> NH s -> NH s'.
-Proof.
-  intros k s s' H (F1 & F4 & Hh & HL). destruct H.
-  - repeat split; auto. apply locks_updp; auto.
-  - repeat split; auto. apply locks_updp; auto.
-  - congruence.
-  - congruence.
-  - (* close *) unfold close_client. rewrite Hh. destruct (live s k) as [c|] eqn:E; [|repeat split; auto].
-    destruct (l_open (c_life c)); [|repeat split; auto].
-    repeat split; auto. unfold locks_clear. simpl. apply Forall_upd; auto.
-    intros x Hx _. destruct (live_some _ _ _ E) as [Hg _]. unfold get in Hg. rewrite Hg in Hx. inversion Hx; subst x.
-    simpl. destruct (Forall_nth _ _ _ _ _ HL Hg). auto.
-  - (* gone *) unfold connection_gone. rewrite Hh. destruct (live s k) as [c|] eqn:E; [|repeat split; auto].
-    rewrite (live_locks _ _ _ HL E).
-    destruct (live_some _ _ _ E) as [Hg _].
-    assert (Hc : p_outlock (c_proto c) = false /\ p_sendlock (c_proto c) = false) by (apply (Forall_nth _ _ _ _ _ HL Hg)).
-    destruct (s_ptr s) as [j0|] eqn:Ep; simpl; rewrite ?Ep; simpl; try destruct (Nat.eqb j0 k); simpl;
-      repeat split; auto; unfold locks_clear; simpl; apply Forall_upd; auto; intros x _ _; simpl; auto.
-  - repeat split; auto.
-  - repeat split; auto.
-  - repeat split; auto.
-  - rewrite (live_locks _ _ _ HL H) in H0. discriminate.
-  - repeat split; auto.
-Qed.
-
-Lemma gstep_nh : forall s s', gstep s s' -> NH s -> NH s'.
-Proof.
-  intros s s' H N. destruct H.
-  - eapply bstep_nh; eauto.
-  - exact N.
-  - exact N.
-  - destruct N as (F1 & F4 & Hh & HL). repeat split; auto. unfold locks_clear. simpl.
-    apply Forall_app. split; auto.
-  - destruct N as (F1 & F4 & Hh & HL). repeat split; auto. unfold locks_clear, run_new_hook. simpl.
-    apply Forall_upd; auto.
-Qed.
-
-Lemma reach_nh : forall s s', reach s s' -> NH s -> NH s'.
-Proof. intros s s' H. induction H; auto. intros N. eapply gstep_nh; eauto. Qed.
-
-Theorem no_deadlock_with_fixes : forall cfg ops, g_fix_wlock cfg = true -> g_fix_cut8 cfg = true ->
-  s_hung (run cfg ops) = false.
-Proof.
-  intros cfg ops F1 F4.
-  assert (N : NH (run cfg ops)).
-  { eapply reach_nh; [apply reach_run_from; apply r_refl|]. repeat split; auto. constructor. }
-  destruct N as (_ & _ & Hh & _). exact Hh.
-Qed.
-
-Theorem reaped_when_idle_fixed : forall cfg ops, g_fix_wlock cfg = true -> g_fix_cut8 cfg = true ->
-  let s := run cfg (ops ++ [OPe]) in
-  s_cleaned s = false ->
-  forall k c, get s k = Some c ->
-    l_open (c_life c) = true \/
-    (l_freed (c_life c) = true /\ l_close (c_life c) = 1%nat /\ l_gone (c_life c) = l_new (c_life c)).
-Proof.
-  intros cfg ops F1 F4 s Hc. apply reaped_when_idle; auto. apply no_deadlock_with_fixes; auto.
-Qed.
-
-Lemma no_deadlock_fixed_nonvacuous :
-  let s := run cfg_fixed ([OAccept DAccept [] true] ++ hs 0 ++ [OIn 0 ft_request; OPeerClose 0; OPe; OCutText8; OPe]) in
-  s_hung s = false /\ exists c, get s 0%nat = Some c /\ l_freed (c_life c) = true /\ l_gone (c_life c) = 1%nat.
-Proof. vm_compute. split; auto. eexists. repeat split. Qed.
+(* a connection refused on the listening-socket path is closed exactly once *)
+Lemma listen_refuse_nonvacuous :
+  exists c, get (run cfg0 [OLAccept DRefuse [] true; OPe]) 0%nat = Some c /\
+            l_freed (c_life c) = true /\ l_close (c_life c) = 1%nat /\ l_gone (c_life c) = 1%nat.
+Proof. vm_compute. eexists. repeat split. Qed.
